@@ -489,11 +489,26 @@ def cmp_table(case, view, r, xs):
     it = sorted_rows(r["table"], r["factor"])
     if it != mt:
         probs.append("_terms_to_table: rows/factors differ from the model (impl %d rows, model %d rows)" % (len(it), len(mt)))
-    # the interning itself: primary operator i must be the harness' elementary operator with that index
+    # the interning itself: primary operator i of the implementation must be the elementary operator the model
+    # interned under index i (identity of site i for i < nsite, then first-appearance order)
     lab = view["labels"]
+    ntab = rd.get()
+    mtab = [(rd.get(), rd.get()) for _ in range(ntab)]
+    n = view["nsite"]
+    exp = list(view["idlab"]) + mtab
+    dof2site = {}
+    for i, s_ in enumerate(case["sites"]):
+        for d in site_dofs(i, s_):
+            dof2site[d] = i
+    got = []
     for i, pk in enumerate(r["primary"]):
-        if json.dumps(pk) not in lab:
+        kk = json.dumps(pk)
+        if kk not in lab:
             probs.append("primary operator %d unknown to the generator: %s" % (i, pk))
+            return probs
+        got.append((dof2site[pk[0][0]], lab[kk]))
+    if got != exp:
+        probs.append("primary_ops list differs from the model's interning (impl %s..., model %s...)" % (got[:6], exp[:6]))
     return probs
 
 
